@@ -254,11 +254,16 @@ def run(pid, argv, *, module, theorems, gen, oracle, rule, nontrivial, extra_tar
         if not ok:
             broken.append("model does not compile: " + out[-800:])
 
+    extra_inputs = []
     if extra_obligations:
-        for name, ok, detail in extra_obligations():
+        for ob in extra_obligations():
+            name, ok, detail = ob[0], ob[1], ob[2]
             chk.obligation(name, ok, detail)
             if not ok:
-                broken.append(name + ": " + detail[:600])
+                if len(ob) > 3 and ob[3] is not None:
+                    extra_inputs.append({"obligation": name, "input": ob[3]})      # a concrete failing input on the real code
+                else:
+                    broken.append(name + ": " + detail[:600])
 
     binp = reactive.build_driver(chk)
     if not binp:
@@ -352,6 +357,8 @@ def run(pid, argv, *, module, theorems, gen, oracle, rule, nontrivial, extra_tar
                        "program": reactive.sx_stmts(prog0), "minimised_program": reactive.sx_stmts(small),
                        "minimised_program_json": small, "implementation_output": lines,
                        "other_failures": len(orfail) - 1, "also_broken": broken})
+    elif extra_inputs:
+        chk.violation({"property": pid, "kind": "oracle failure on implementation output", "failure": extra_inputs[0], "also_broken": broken})
     elif mism or broken:
         chk.violation({"property": pid, "kind": "proof/correspondence broken, oracle clean on all inputs explored",
                        "broken": broken, "mismatches": mism[:5], "mismatch_count": len(mism)}, no_input=True)
